@@ -572,6 +572,12 @@ def run(pid, tier, seed, res, p_sub=None, p_flag=None, only=None):
                 # the documented refusal of `sub(..., twz_active=g)` when a node inside sub carries a flag of its own
                 dist["refused_flag_on_flagged_inner_node"] += 1
                 msg = None
+            if (msg is not None and r["impl"][0] == "build-raise" and isinstance(r["impl"][1], KeyError) and ">!>twz_active" in str(r["impl"][1])
+                    and "already occupied" in str(r["impl"][1]) and has_sub_flag(prog)):
+                # the same unsupported combination (a flagged nested call whose inner DAG carries flags), refused with a KeyError on
+                # the id of a flag holder when the inner flag sits on a deeper nested call with a constant flag
+                dist["refused_flag_on_flagged_inner_call"] += 1
+                msg = None
             if msg is not None:
                 props_ = ["C01"]
                 if has_subs(prog):
